@@ -19,7 +19,8 @@ CONSTANTS Projects, Keys, Vals, Handles, DocVals, FileNames, FVals,
           InitCache,    \* subset of {TRUE, FALSE}: initial states with / without an exact persistent cache file
           IdOrder,      \* all state points as a sequence in the order of their real ids (= listing order under the harness)
           FixedD3,      \* BOOLEAN, probed on the tree under test: DEVIATION D3 (below) has been repaired
-          FixedD4       \* BOOLEAN, probed: init() through a handle that cannot learn its state point creates nothing (D4 repaired)
+          FixedD4,      \* BOOLEAN, probed: init() through a handle that cannot learn its state point creates nothing (D4 repaired)
+          FixedD7       \* BOOLEAN, probed: a refused re-key rolls the memory back even when the restored file is unreadable (D7 repaired)
 
 Absent  == "-"
 SP      == [Keys -> Vals \cup {Absent}]
@@ -190,7 +191,12 @@ RekeyR(S, x, new, okRes, registerNew) ==
   ELSE IF dst.ex /\ ~EmptyDir(dst)
   THEN \* destination exists: file and directory rolled back, in-memory value reloaded from the restored file
        IF rec.spk = "garbage"
-       THEN Out([S EXCEPT !.h = SetGroup(@, x, LAMBDA g : [g EXCEPT !.spMem = Known(new)])], "JSONDecodeError")
+       THEN \* DEVIATION D7: the roll-back read the restored file; when that had been damaged meanwhile the read failed and the
+            \* REJECTED value stayed in memory (a handle whose state point does not hash to its id).  Repaired: fall back to
+            \* the value the handles knew before the edit; if there is none, forget the value (loaded + validated on next access)
+            IF ~FixedD7 THEN Out([S EXCEPT !.h = SetGroup(@, x, LAMBDA g : [g EXCEPT !.spMem = Known(new)])], "JSONDecodeError")
+            ELSE IF j.spMem.known THEN Out([S EXCEPT !.h = SetGroup(@, x, LAMBDA g : [g EXCEPT !.spMem = j.spMem])], "DestinationExistsError")
+            ELSE Out([S EXCEPT !.h = SetGroup(@, x, LAMBDA g : [g EXCEPT !.spInit = FALSE, !.spMem = NoSp])], "DestinationExistsError")
        ELSE Out([S EXCEPT !.h = SetGroup(@, x, LAMBDA g : [g EXCEPT !.spMem = Known(rec.spv)])], "DestinationExistsError")
   ELSE \* the directory moves (an empty destination directory is taken over); the LAST member of the
        \* group re-initialises it, i.e. writes the new state point file, and registers the id
